@@ -310,7 +310,8 @@ pub fn gen_modular_case(src: &mut Src, o: &ModGenOpts) -> ModularCase {
         allow_rct: bits <= 24,
         allow_palette: true,
         allow_lz77: true,
-        allow_multiplier: !o.narrow,
+        // quantising to a multiplier may move float bit patterns into the non-finite range
+        allow_multiplier: !o.narrow && !is_float,
         amplitude,
     };
     let bitsout = encode_modular_frame(src, &image, &geom, &mo);
